@@ -860,3 +860,137 @@ Section Calls.
       + repeat split; auto; [rewrite F2, W2, Hw | rewrite F3, E2]; reflexivity.
   Qed.
 End Calls.
+
+Lemma Forall2_len {A B} (R : A -> B -> Prop) l l' : Forall2 R l l' -> List.length l = List.length l'.
+Proof. induction 1; simpl; congruence. Qed.
+
+Section Calls2.
+  Variable E : env.
+  Hypothesis NT : no_tyerr E.
+
+  Lemma advance_exact st t rest' :
+    rest st = t :: rest' -> (is_wss st = true \/ is_ws (look0 rest') = false) ->
+    rest (advance st) = rest' /\ wss (advance st) = wss st /\ errs (advance st) = errs st.
+  Proof.
+    intros Hr Hc. unfold advance. set (s1 := advance_wss st).
+    assert (R1 : rest s1 = rest') by (unfold s1; rewrite rest_advance_wss, Hr; reflexivity).
+    assert (W1 : is_wss s1 = is_wss st) by reflexivity.
+    rewrite W1. destruct (is_wss st) eqn:W; [auto|].
+    destruct Hc as [Hc|Hc]; [discriminate|].
+    unfold advance_if_ws. assert (C : is_ws (cur s1) = false) by (unfold cur; rewrite R1; exact Hc).
+    rewrite C. destruct (is_ws (peek s1)); auto.
+  Qed.
+
+  Lemma advance_skip_ws st t rest' :
+    is_wss st = false -> rest st = t :: mk T_WS :: rest' -> wsish (look0 rest') = false ->
+    rest (advance st) = rest' /\ wss (advance st) = wss st /\ errs (advance st) = errs st.
+  Proof.
+    intros W Hr Hn. destruct (advance_run st t [mk T_WS] rest' Hr eq_refl Hn) as (run' & A1 & A2 & A3 & A4 & A5).
+    (* outside a whitespace-sensitive context the blank is skipped *)
+    unfold advance in *. set (s1 := advance_wss st) in *.
+    assert (R1 : rest s1 = mk T_WS :: rest') by (unfold s1; rewrite rest_advance_wss, Hr; reflexivity).
+    assert (W1 : is_wss s1 = false) by exact W.
+    rewrite W1 in *. unfold advance_if_ws in *.
+    assert (C : is_ws (cur s1) = true) by (unfold cur; rewrite R1; reflexivity).
+    rewrite C in *. set (s2 := advance_wss s1) in *.
+    assert (R2 : rest s2 = rest') by (unfold s2; rewrite rest_advance_wss, R1; reflexivity).
+    destruct (is_ws (peek s2)); cbn [rest wss errs]; auto.
+  Qed.
+
+  (* parseFuncCall at top level: name arg arg ... up to the end of the list *)
+  Lemma func_call_top f fuel name args trees st rest0 outer :
+    func_of E name = Some false ->
+    arity_wrong E name (List.length args) = false ->
+    Forall2 (fun a t => RT E true a t /\ head_ok a) args trees ->
+    rest st = ident_tok name :: more_args args ++ rest0 ->
+    wss st = false :: outer ->
+    list_end (look0 rest0) ->
+    (forall a, In a args -> 2 * List.length a <= f) ->
+    List.length args < fuel ->
+    exists st', parse_toplevel E (parse_expr E f) fuel st = Some (Some (TCall name trees), st') /\ same3 st st' rest0.
+  Proof.
+    intros Hfn Har HF Hr Hw Hend Hf Hfuel.
+    unfold parse_toplevel. unfold cur_t, cur. rewrite Hr. cbn [look0 hd ttype tlit ident_tok]. rewrite Hfn.
+    unfold parse_func_call. cbn [orb]. unfold cur. rewrite Hr. cbn [look0 hd tlit ident_tok].
+    assert (Hlen : List.length trees = List.length args) by (symmetry; eapply Forall2_len; eauto).
+    assert (Wf : is_wss st = false) by (unfold is_wss; rewrite Hw; reflexivity).
+    assert (Hadv : rest (advance st) = (match args with [] => [] | a :: r => a ++ more_args r end) ++ rest0
+                   /\ wss (advance st) = wss st /\ errs (advance st) = errs st).
+    { destruct args as [|a r].
+      - cbn [more_args flat_map app] in Hr |- *. apply (advance_exact st _ rest0 Hr). right.
+        unfold list_end in Hend. unfold is_ws. destruct (ttype (look0 rest0)); try contradiction; reflexivity.
+      - inversion HF as [|? ? ? ? [_ Hh] _]; subst. cbn [more_args flat_map] in Hr. fold (more_args r) in Hr.
+        destruct a as [|t0 a']; [contradiction|].
+        apply (advance_skip_ws st (ident_tok name)); [exact Wf | |].
+        + rewrite Hr. cbn [app]. rewrite <- !app_assoc. reflexivity.
+        + cbn [app look0 hd]. cbn [head_ok] in Hh. unfold wsish. destruct (ttype t0); try contradiction; reflexivity. }
+    destruct Hadv as (A1 & A2 & A3).
+    destruct (expr_list_loop E f args trees [] (advance st) rest0 fuel outer HF A1) as (st' & P & Q1 & Q2 & Q3); auto; try (rewrite A2; exact Hw).
+    rewrite P. cbn [rev app]. rewrite Hlen, Har. unfold tyerr. rewrite NT.
+    eexists. split; [reflexivity|]. repeat split; auto; [rewrite Q2 | rewrite Q3]; auto.
+  Qed.
+
+  (* "(" name arg ... ")" as a whole expression *)
+  Theorem group_call_rt w name args trees :
+    func_of E name = Some false ->
+    arity_wrong E name (List.length args) = false ->
+    Forall2 (fun a t => RT E true a t /\ head_ok a) args trees ->
+    RT E w (mk T_LPAREN :: ident_tok name :: more_args args ++ [mk T_RPAREN]) (TGroup (TCall name trees)).
+  Proof.
+    intros Hfn Har HF st rest0 fuel Hw Hr Hws Hstop Hfuel.
+    assert (Hargs : forall a, In a args -> List.length a <= List.length (more_args args)).
+    { clear. induction args as [|x r IH]; intros a H; [contradiction|]. cbn [more_args flat_map]. fold (more_args r).
+      simpl. rewrite app_length. destruct H as [->|H]; [lia|]. specialize (IH a H). lia. }
+    assert (Hn : List.length args <= List.length (more_args args)).
+    { clear. induction args as [|x r IH]; [simpl; lia|]. cbn [more_args flat_map]. fold (more_args r). simpl. rewrite app_length. lia. }
+    assert (Hlen : List.length (mk T_LPAREN :: ident_tok name :: more_args args ++ [mk T_RPAREN]) = S (S (List.length (more_args args) + 1))).
+    { cbn [List.length]. rewrite app_length. simpl. lia. }
+    rewrite Hlen in Hfuel.
+    destruct fuel as [|f]; [lia|]. rewrite parse_expr_S.
+    assert (Hr2 : rest st = mk T_LPAREN :: ident_tok name :: more_args args ++ mk T_RPAREN :: rest0).
+    { rewrite Hr. cbn [app]. rewrite <- !app_assoc. reflexivity. }
+    assert (Hcur : cur_t st = T_LPAREN) by (unfold cur_t, cur; rewrite Hr2; reflexivity).
+    unfold parse_prefix. rewrite Hcur. unfold parse_grouped.
+    destruct (advance_exact (push_wss false st) (mk T_LPAREN) (ident_tok name :: more_args args ++ mk T_RPAREN :: rest0)) as (A1 & A2 & A3); auto.
+    destruct (func_call_top f f name args trees (advance (push_wss false st)) (mk T_RPAREN :: rest0) (wss st)) as (st2 & P & Q1 & Q2 & Q3); auto.
+    { reflexivity. }
+    { intros a Ha. specialize (Hargs a Ha). lia. }
+    { lia. }
+    rewrite P.
+    assert (A : assert_token T_RPAREN st2 = (true, st2)).
+    { unfold assert_token, cur_t, cur. rewrite Q1. reflexivity. }
+    rewrite A.
+    assert (W4 : wss (advance_wss st2) = false :: wss st) by (cbn; rewrite Q2, A2; reflexivity).
+    assert (R4 : rest (advance_wss st2) = rest0) by (rewrite rest_advance_wss, Q1; reflexivity).
+    destruct (pop_wss_nop (advance_wss st2) false (wss st) W4) as (D1 & D2 & D3).
+    { rewrite R4. intro Hh. apply Hws. unfold is_wss in Hw. rewrite Hh in Hw. symmetry. exact Hw. }
+    destruct f as [|k]; [lia|]. unfold ret.
+    rewrite expr_loop_stop.
+    - eexists. split; [reflexivity|]. repeat split.
+      + rewrite D1. exact R4.
+      + exact D2.
+      + rewrite D3. cbn. rewrite Q3, A3. reflexivity.
+    - unfold cur. rewrite D1, R4. assert (Wf : is_wss (pop_wss (advance_wss st2)) = w).
+      { unfold is_wss. rewrite D2. exact Hw. }
+      rewrite Wf. exact Hstop.
+  Qed.
+
+  (* a function without parameters, written as a bare name, as a whole expression *)
+  Theorem niladic_call_rt w name :
+    func_of E name = Some true ->
+    RT E w [ident_tok name] (TCall name []).
+  Proof.
+    intros Hfn st rest0 fuel Hw Hr Hws Hstop Hfuel. cbn [List.length] in Hfuel.
+    destruct fuel as [|f]; [lia|]. rewrite parse_expr_S.
+    assert (Hr2 : rest st = ident_tok name :: rest0) by exact Hr.
+    unfold parse_prefix, cur_t, cur. rewrite Hr2. cbn [look0 hd ttype ident_tok].
+    unfold parse_ident_expr, cur. rewrite Hr2. cbn [look0 hd tlit ident_tok]. rewrite Hfn.
+    unfold parse_func_call. cbn [orb negb]. unfold cur. rewrite Hr2. cbn [look0 hd tlit ident_tok].
+    destruct (advance_exact st (ident_tok name) rest0 Hr2) as (A1 & A2 & A3).
+    { destruct w; [left; exact Hw | right; apply Hws; reflexivity]. }
+    destruct f as [|k]; [lia|]. unfold ret. rewrite expr_loop_stop.
+    - eexists. split; [reflexivity|]. repeat split; auto.
+    - unfold cur. rewrite A1. assert (Wf : is_wss (advance st) = w) by (unfold is_wss; rewrite A2; exact Hw).
+      rewrite Wf. exact Hstop.
+  Qed.
+End Calls2.
